@@ -382,6 +382,7 @@ fn c20_real_stub() -> Value {
 }
 
 struct MiriResult {
+    race_schedules: u64,
     invocations: u64,
     miri_seeds: u64,
     programs: u64,
@@ -393,15 +394,23 @@ struct MiriResult {
 /// One invocation of the Miri tier: `programs` generated programs, each
 /// executed under `miri_seeds` different Miri scheduler seeds.
 fn miri_invoke(seed: u64, first: u64, programs: u64, miri_seeds: u64) -> Result<(u64, String), String> {
+    miri_invoke_args(&[seed.to_string(), first.to_string(), programs.to_string()], miri_seeds)
+}
+
+/// The directed race rounds (`jiffmiri race`) under `miri_seeds` schedules.
+fn miri_invoke_race(miri_seeds: u64, full: bool) -> Result<(u64, String), String> {
+    let size = if full { "full" } else { "small" };
+    miri_invoke_args(&["race".to_string(), size.to_string()], miri_seeds)
+}
+
+fn miri_invoke_args(args: &[String], miri_seeds: u64) -> Result<(u64, String), String> {
     let flags = format!("-Zmiri-many-seeds=0..{miri_seeds} -Zmiri-preemption-rate=0.1");
     let out = std::process::Command::new("cargo")
         .current_dir("/verif/miri-c20")
         .env("MIRIFLAGS", &flags)
         .env_remove("RUSTFLAGS")
         .args(["+nightly", "miri", "run", "--offline", "--"])
-        .arg(seed.to_string())
-        .arg(first.to_string())
-        .arg(programs.to_string())
+        .args(args)
         .output()
         .map_err(|e| format!("cannot run cargo miri: {e}"))?;
     let stdout = String::from_utf8_lossy(&out.stdout).to_string();
@@ -432,7 +441,24 @@ fn miri_invoke(seed: u64, first: u64, programs: u64, miri_seeds: u64) -> Result<
 
 fn run_miri_tier(seed: u64, invocations: u64, programs: u64, miri_seeds: u64) -> Result<MiriResult, String> {
     let start = std::time::Instant::now();
-    let mut res = MiriResult { invocations: 0, miri_seeds, programs: 0, executions_ok: 0, wall_s: 0.0, failure: None };
+    let mut res = MiriResult { race_schedules: 0, invocations: 0, miri_seeds, programs: 0, executions_ok: 0, wall_s: 0.0, failure: None };
+    // Directed race rounds first: 24 rounds (3 heap zones x 2-3 threads x 4
+    // patterns of concurrent clone/drop/query) per schedule.
+    // Quick: the small set (4 rounds) under 12 schedules; thorough: all 24
+    // rounds under 128 schedules.
+    let full = miri_seeds >= 32;
+    let race_seeds = if full { miri_seeds * 2 } else { miri_seeds };
+    let (ok, fail) = miri_invoke_race(race_seeds, full)?;
+    res.race_schedules = ok;
+    if !fail.is_empty() {
+        res.failure = Some((
+            fail.clone(),
+            json!({"property": "C20-miri-race", "clause": "miri", "detail": fail, "miri_seeds": race_seeds, "full": full,
+                   "command": format!("cd /verif/miri-c20 && MIRIFLAGS='-Zmiri-many-seeds=0..{race_seeds} -Zmiri-preemption-rate=0.1' cargo +nightly miri run --offline -- race {}", if full { "full" } else { "small" })}),
+        ));
+        res.wall_s = start.elapsed().as_secs_f64();
+        return Ok(res);
+    }
     for b in 0..invocations {
         let first = b * programs;
         let (ok, fail) = miri_invoke(seed, first, programs, miri_seeds)?;
@@ -578,17 +604,21 @@ fn run_c20(args: &Args) -> i32 {
             Err(e) => harness_error(&e),
             Ok(m) => {
                 println!(
-                    "miri tier: {} invocation(s) x {} programs x {} scheduler seeds = {} clean executions in {:.0}s",
-                    m.invocations, programs, m.miri_seeds, m.executions_ok, m.wall_s
+                    "miri tier: race rounds x {} schedules clean; {} invocation(s) x {} programs x {} scheduler seeds = {} clean executions in {:.0}s",
+                    m.race_schedules, m.invocations, programs, m.miri_seeds, m.executions_ok, m.wall_s
                 );
-                miri_json = json!({"ran": true, "invocations": m.invocations, "programs": m.programs,
+                miri_json = json!({"ran": true, "race_rounds_per_schedule": if m.miri_seeds >= 32 { 24 } else { 4 }, "race_schedules_clean": m.race_schedules,
+                    "invocations": m.invocations, "programs": m.programs,
                     "miri_scheduler_seeds_per_program": m.miri_seeds, "clean_executions": m.executions_ok,
                     "wall_s": m.wall_s,
                     "flags": "-Zmiri-many-seeds -Zmiri-preemption-rate=0.1",
                     "detects": "use-after-free, double free, invalid free, leaks, data races, invalid pointer tags/provenance"});
                 if let Some((detail, rf)) = m.failure {
                     let _ = std::fs::create_dir_all(&replay_dir);
-                    let path = replay_dir.join(format!("C20-{seed}-miri-{}.json", rf["first_program"]));
+                    let path = replay_dir.join(format!(
+                        "C20-{seed}-miri-{}.json",
+                        rf.get("first_program").map(|v| v.to_string()).unwrap_or_else(|| "race".into())
+                    ));
                     let _ = std::fs::write(&path, serde_json::to_string_pretty(&rf).unwrap());
                     println!("violated clause: miri");
                     println!("detail: {detail}");
@@ -698,6 +728,21 @@ fn run_replay(args: &Args) -> i32 {
             match driver::replay(&p, Path::new(path)) {
                 Err(e) => harness_error(&e),
                 Ok((rf, viol, trace)) => report_replay(&rf.property, &rf.clause, path, &viol, &trace, args),
+            }
+        }
+        "C20-miri-race" => {
+            let ms = v["miri_seeds"].as_u64().unwrap_or(16);
+            match miri_invoke_race(ms, v["full"].as_bool().unwrap_or(true)) {
+                Err(e) => harness_error(&e),
+                Ok((_, fail)) if fail.is_empty() => {
+                    println!("replay of {path}: Miri reports nothing on the current tree");
+                    0
+                }
+                Ok((_, fail)) => {
+                    println!("reproduced: clause=miri {fail}");
+                    println!("VIOLATION property=C20 replay={path}");
+                    1
+                }
             }
         }
         "C20-miri" => {
